@@ -399,11 +399,11 @@ def recvLine (st : DState) (f : List String) (harness : Bool) : String × DState
     let line :=
       if harness then
         common ++ " hreq=" ++ (if ok then reqRecorded out.ctx.reqs else "-") ++ " calls=" ++ (if ok then listOrDash (out.ctx.calls.map (·.1)) else "-")
-          ++ " ev=" ++ (if ok then listOrDash out.ctx.events else "-") ++ " st=" ++ stateStr out.ctx.w.orb ++ " tag=" ++ tag
+          ++ " ev=" ++ (if ok then listOrDash out.ctx.events else "-") ++ " st=" ++ stateStr out.orb ++ " tag=" ++ tag
       else
         common ++ " req=" ++ (if ok then reqEvents out.ctx.reqs else "-") ++ " ev=" ++ (if ok then listOrDash out.ctx.events else "-")
-          ++ " st=" ++ stateStr out.ctx.w.orb ++ " tag=" ++ tag
-    (line, { st with w := out.ctx.w, faults := if harness then [] else st.faults })
+          ++ " st=" ++ stateStr out.orb ++ " tag=" ++ tag
+    (line, { st with w := out.world, faults := if harness then [] else st.faults })
 
 def isOrbiterPacket (st : DState) (pkt : Packet) : Bool :=
   match decFTPD pkt.data with
@@ -431,8 +431,8 @@ def handle (st : DState) (line : String) : String × DState :=
      | some pkt =>
        -- the model's side of C07: classification, and (when not addressed to the orbiter) equality of the two stacks
        let orb := isOrbiterPacket st pkt
-       let a := stackOnRecv (appWiring st.cfg) noFaults { w := st.w } pkt
-       let b := bareOnRecv (appWiring st.cfg) { w := st.w } pkt
+       let a := stackOnRecv (appWiring st.cfg) noFaults st.w.orb (ctxOf st.w) pkt
+       let b := bareOnRecv (appWiring st.cfg) st.w.orb (ctxOf st.w) pkt
        let (ca, _, _) := ackStr a.ack
        let (cb, _, _) := ackStr b.ack
        ("orb=" ++ (if orb then "true" else "false") ++ " ackmw=" ++ ca ++ " ackbare=" ++ cb, st)
@@ -462,7 +462,7 @@ def handle (st : DState) (line : String) : String × DState :=
             if infos.any Option.isNone then ("res=err dst=" ++ hxS t.dstDenom ++ ":" ++ intToDec t.dstAmount ++ " bal=-", st) else
             let w1 := { st.w with bank := st.w.bank.mint st.cfg.orbAddr denom amt.toNat }
             let act : Action := { id := aid, attrs := some (.fee (infos.filterMap id)) }
-            (match executorHandle (harnessWiring st.cfg st.swap) noFaults { w := w1 } t act with
+            (match executorHandle (harnessWiring st.cfg st.swap) noFaults w1.orb (ctxOf w1) t act with
              | .ok (c, t') => ("res=ok dst=" ++ hxS t'.dstDenom ++ ":" ++ intToDec t'.dstAmount ++ " bal=" ++ balDelta c.moves, st)
              | .err e => ("res=err dst=" ++ hxS t.dstDenom ++ ":" ++ intToDec t.dstAmount ++ " bal=- tag=" ++ e, st)
              | .panic e => ("res=panic dst=- bal=- tag=" ++ e, st))
